@@ -1,7 +1,7 @@
 (** Proofs about M-Kill: the collected list is exactly the set of descendants of the snapshot. *)
 From Coq Require Import List ZArith Bool Arith Lia.
 Import ListNotations.
-From RV Require Import Gen.GenFacts Model.Kill.
+From RV Require Import Gen.GenFactsKill Model.Kill.
 
 Inductive desc (f : forest) : nat -> nat -> Prop :=
 | d_child p c : In c (f p) -> desc f p c
